@@ -23,9 +23,9 @@ def written_files(run, tier):
     d = env.subdir('c02w')
     combos = [((9, 10, 70), 32, (4, 4, -1)), ((9, 6, 20), 32, (8, 8, 16)), ((18, 17, 9), 32, (16, 16, 4)),
               ((5, 9, 130), 16, (4, 4, -1)), ((6, 5, 300), 8, (4, 4, -1)),
-              ((37, 20, 9), 8, (16, 64, 4)), ((70, 19, 6), 8, (64, 16, 4))]        # z-slice layouts that are not square, two block rows
+              ((37, 20, 9), 8, (16, 64, 4)), ((70, 19, 6), 8, (64, 16, 4)), ((13, 10, 40), 32, (4, 8, 32))]        # z-slice layouts that are not square, two block rows
     if tier == 'thorough':
-        combos += [((9, 10, 40), 32, (4, 8, 32)), ((10, 9, 40), 32, (8, 4, 32)), ((9, 17, 20), 32, (4, 16, 16)),
+        combos += [((10, 9, 40), 32, (8, 4, 32)), ((9, 17, 20), 32, (4, 16, 16)),
                    ((5, 6, 600), 4, (4, 4, -1)), ((5, 6, 1100), 2, (4, 4, -1)), ((66, 65, 9), 2, (64, 64, 4)),
                    ((5, 5, 2100), 1, (4, 4, -1)), ((5, 5, 4100), Fr(1, 2), (4, 4, -1)), ((5, 5, 8200), Fr(1, 4), (4, 4, -1)),
                    ((33, 34, 9), 8, (32, 32, 4)), ((17, 9, 70), 16, (16, 8, 16)), ((12, 13, 260), 32, (4, 4, 64))]
